@@ -136,6 +136,18 @@ CLAIMED = {
              "decided). _run_handlers_sequential is bounded (2 handlers) and not counted as proved. Queue/relay "
              "config players and AsyncMode are not under contract.",
         ref="4.C02"),
+    "C09": dict(
+        text="RGBColor.blend proved for all colours and fractions: every channel of a running fade lies between its "
+             "endpoints and the endpoints are hit exactly (nonlinear real arithmetic). LightPlatformDirectFade.set_fade "
+             "proved to leave the channel's eventual brightness (ghost: last direct command, or the target of the live "
+             "fade task) equal to the target of the latest command; VirtualLight.set_fade/current_brightness. Stack "
+             "representation invariant checked on bounded stacks (2 existing entries, all fields symbolic): "
+             "_add_to_stack keeps (priority,key) order and one entry per key, ignores lower-priority commands for an "
+             "existing key; _remove_from_stack_by_key removes exactly that key; clear_stack empties and pushes an update.",
+        note="Trusted: pyvc encoding, z3 (NRA), floats as reals, asyncio task model. _schedule_update, "
+             "_get_color_and_fade/_get_color_and_target_time (recursive interpolation), gamma/colour correction, the "
+             "software _fade coroutine and the batch light system are not yet under contract.",
+        ref="4.C09"),
 }
 
 NA = {}
